@@ -23,12 +23,12 @@ def run_qry(tier, seed):
         raise core.Machinery("MC_Query_refute: expected a counterexample to NoSkip, got %r" % (ref.invariant_violated,))
     chk.notes["design_results"] = {
         "RealPathFound": "holds: with unique field names per struct a path that exists is found and it is that field",
-        "FoundHasLastName": "holds", "MIODSound": "holds",
+        "FoundHasLastName": "holds", "MIODSound": "holds", "CategoriesPartition": "holds: every node is in exactly one primary category of get(), once",
         "NoSkip": "refuted: get_xpath skips an intermediate name that the current struct does not have (A:nosuch/x returns A.x)"}
     head = [o for o in res.out if o["kind"] == "queries"]
     if len(head) != 1:
         raise core.Machinery("Gen_Query: expected one queries line, got %d" % len(head))
-    queries, asked = head[0]["queries"], head[0]["asked"]
+    queries, asked, cats_asked = head[0]["queries"], head[0]["asked"], head[0]["cats"]
     lines = sorted((o for o in res.out if o["kind"] != "queries"), key=lambda o: json.dumps(o, sort_keys=True))
     if not any(o["kind"] == "xpath" for o in lines) or not any(o["kind"] == "impl" for o in lines):
         raise core.Machinery("Gen_Query emitted no cases")
@@ -71,6 +71,44 @@ def run_qry(tier, seed):
                                   {"schema": sch, "xpath": text, "specified": want, "observed": got})
                 elif isinstance(want, list):
                     chk.distinct(json.dumps([sch["structs"], text]))
+        elif o["kind"] == "cat":
+            names = {}
+            for i, s in enumerate(fcp.structs):
+                names[id(s)] = ["struct", i + 1]
+                for j, f in enumerate(s.fields):
+                    names[id(f)] = ["field", i + 1, j + 1]
+            for i, e in enumerate(fcp.enums):
+                names[id(e)] = ["enum", i + 1]
+            for i, im in enumerate(fcp.impls):
+                names[id(im)] = ["impl", i + 1]
+                for j, sg in enumerate(im.signals):
+                    names[id(sg)] = ["signal_block", i + 1, j + 1]
+            for i, sv in enumerate(fcp.services):
+                names[id(sv)] = ["service", i + 1]
+            for i, dv in enumerate(fcp.devices):
+                names[id(dv)] = ["device", i + 1]
+            for cat, want in zip(cats_asked, o["cats"]):
+                chk.count(1, traces=1)
+                try:
+                    r = fcp.get(cat)
+                    if r.is_nothing():
+                        got = "nothing"
+                    else:
+                        got = []
+                        for node in r.unwrap():
+                            if cat == "field":      # (struct, field) pairs: the pair must name the field's own struct
+                                st, fld = node
+                                nm = names.get(id(fld), ["foreign"])
+                                got.append(nm if names.get(id(st)) == ["struct", nm[1] if len(nm) > 1 else 0] else ["field-of-another-struct"])
+                            else:
+                                got.append(names.get(id(node), ["foreign"]))
+                except Exception as e:
+                    got = "raise " + type(e).__name__
+                if got != want:
+                    chk.violation("get[%s]:nodes-differ" % (cat if cat in ("struct", "enum", "impl", "field", "signal_block", "type", "service", "device") else "unknown-category"),
+                                  {"schema": sch, "category": cat, "specified": want, "observed": got})
+                elif want and want != "nothing":
+                    chk.distinct(json.dumps([sch, cat]))
         else:
             idx = {id(im): i + 1 for i, im in enumerate(fcp.impls)}
             for a, p in enumerate(asked):
@@ -102,7 +140,7 @@ def run_qry(tier, seed):
     chk.assumptions += ["names are words over [A-Za-z] or empty (the text form root:p1/p2 is then parsed back unambiguously)",
                         "trees of 2-3 structs with 1-2 fields, one enum; paths of at most %s names" % ("2" if tier == "quick" else "3"),
                         "the ORDER of get_protocols() is that of a Python set and is not specified"]
-    return chk.finish("laws of Query.tla as TLC invariants (RealPathFound, FoundHasLastName, MIODSound), NoSkip refuted; every "
+    return chk.finish("laws of Query.tla as TLC invariants (RealPathFound, FoundHasLastName, MIODSound, CategoriesPartition), NoSkip refuted; every "
                       "tree x query (get_xpath through the Xpath text form; get_matching_impl / get_matching_impls / "
-                      "get_matching_impls_or_default / get_protocols) evaluated with the real FcpV2 object and compared by object "
+                      "get_matching_impls_or_default / get_protocols; get(category) for the eight categories and two unknown ones) evaluated with the real FcpV2 object and compared by object "
                       "identity; distinct = (tree, query) with a found field / a non-empty selection")
